@@ -1975,7 +1975,9 @@ uint32_t gp_u32_to_upper(uint32_t c)
 
         if (c >= 0x10428 && c <= 0x1044f)
   	return (c - 0x28);
+      }
 
+      { // Not in else branch: the newer mappings are all over the codespace.
         // Run the awk expression again with updated UnicodeData.txt and compare
         // the diff with UnicodeData.txt version 5.2.0 to get the most recent
         // functionality. The code below is based on Unicode 15.1.0.
@@ -2038,7 +2040,8 @@ uint32_t gp_u32_to_upper(uint32_t c)
         if  (0xAB70  <= c && c <= 0xABBF)   return c - (0xAB70 - 0x13A0);
         if ((0x10428 <= c && c <= 0x1044F)  ||
             (0x104D8 <= c && c <= 0x104FB)) return c - 0x28;
-        if ((0x10597 <= c && c <= 0x105B9)  ||
+        if ((0x10597 <= c && c <= 0x105B9   && // 105A2 and 105B2 are unassigned
+             c != 0x105A2 && c != 0x105B2)  ||
             (0x105BB == c || c == 0x105BC)) return c - 0x27;
         if ((0x10CC0 <= c && c <= 0x10CF2)) return c - 0x40;
         if ((0x118C0 <= c && c <= 0x118DF)  ||
@@ -2525,7 +2528,9 @@ uint32_t gp_u32_to_lower(uint32_t c)
 
         if (c >= 0x10400 && c <= 0x10427)
   	return (c + 0x28);
+      }
 
+      { // Not in else branch: the newer mappings are all over the codespace.
         // Run the awk expression again with updated UnicodeData.txt and compare
         // the diff with UnicodeData.txt version 5.2.0 to get the most recent
         // functionality. The code below is based on Unicode 15.1.0.
@@ -2551,7 +2556,8 @@ uint32_t gp_u32_to_lower(uint32_t c)
             case 0xA7C6: return 0x1D8E;
             case 0xA7C7: return 0xA7C8;
             case 0xA7C9: return 0xA7CA;
-            case 0xA7D0: return 0xA7D0;
+            case 0xA7C4: return 0xA794;
+            case 0xA7D0: return 0xA7D1;
             case 0xA7D6: return 0xA7D7;
             case 0xA7D8: return 0xA7D9;
             case 0xA7F5: return 0xA7F6;
@@ -2570,12 +2576,13 @@ uint32_t gp_u32_to_lower(uint32_t c)
         if ((0x0526  <= c && c <= 0x052E)   && !(c % 2)) return c + 1;
         if  (0x13A0  <= c && c <= 0x13EF)   return c + (0xAB70 - 0x13A0);
         if  (0x13F0  <= c && c <= 0x13F5)   return c + 8;
-        if  (0x1C90  <= c && c <= 0x1CBA)   return c + (0x1C90 - 0x10D0);
+        if  (0x1C90  <= c && c <= 0x1CBA)   return c - (0x1C90 - 0x10D0);
         if ((0xA796  <= c && c <= 0xA7A8)   ||
             (0xA7B6  <= c && c <= 0xA7C4))  return c + !(c % 2);
         if ((0x10400 <= c && c <= 0x10427)  ||
             (0x104B0 <= c && c <= 0x104D3)) return c + 0x28;
-        if ((0x10570 <= c && c <= 0x10592)  ||
+        if ((0x10570 <= c && c <= 0x10592   && // 1057B and 1058B are unassigned
+             c != 0x1057B && c != 0x1058B)  ||
             (0x10594 == c || c == 0x10595)) return c + 0x27;
         if ((0x10C80 <= c && c <= 0x10CB2)) return c + 0x40;
         if ((0x118A0 <= c && c <= 0x118BF)  ||
